@@ -98,6 +98,11 @@ func genCache(r *Rng, tier string, p *Plan) {
 				if r.Bool(0.3) {
 					p.Add(Op{K: "kept", At: now, I: id, N: 2, S: "dynamic"})
 				}
+				if r.Bool(0.5) {
+					// a reload with another DroppedSize between the record and the burst
+					d := p.N["dropped"]
+					p.Add(Op{K: "resize", At: now, N: p.N["kept"], M: PickOf(r, 2*d, 2*d, max(d/2, 4), d)})
+				}
 			}
 			p.Add(Op{K: "fill", At: now, I: nextFresh, N: k})
 			nextFresh += k
@@ -116,7 +121,7 @@ func genCache(r *Rng, tier string, p *Plan) {
 		}
 		switch r.Intn(12) {
 		case 0, 1, 2:
-			p.Add(Op{K: "kept", At: now, I: id, N: int64(PickOf(r, 1, 2, 10, 1000)), S: PickOf(r, "rules/a", "dynamic", "deterministic/always", "")})
+			p.Add(Op{K: "kept", At: now, I: id, N: PickOf(r, int64(1), 2, 10, 1000, 65535, 65536, 1<<31, 1<<32-1), S: PickOf(r, "rules/a", "dynamic", "deterministic/always", "")})
 		case 3, 4:
 			p.Add(Op{K: "drop", At: now, I: id})
 		case 5, 6, 7:
@@ -124,7 +129,7 @@ func genCache(r *Rng, tier string, p *Plan) {
 		case 8:
 			p.Add(Op{K: "check_trace", At: now, I: id})
 		case 9:
-			p.Add(Op{K: "resize", At: now, N: int64(PickOf(r, 1, 2, 3, 5, 8, 50)), M: p.N["dropped"]})
+			p.Add(Op{K: "resize", At: now, N: int64(PickOf(r, 1, 2, 3, 5, 8, 50)), M: PickOf(r, p.N["dropped"], p.N["dropped"], max(p.N["dropped"]/2, 4), 2*p.N["dropped"])})
 		default:
 			dt := PickOf(r, int64(0), 50, 100, 150, 1000, 100_000, 1_000_000, 3_000_000, 3_000_001, 5_000_000)
 			now += dt
@@ -183,11 +188,14 @@ func runCache(t *testing.T, p *Plan) *Outcome {
 		}
 		dropped := map[string]*dropRec{}
 		everDropped := map[string]bool{}
-		slots := func() float64 {
-			f := cuckoo.NewFilter(uint(p.N["dropped"]))
+		slotsFor := func(capacity int64) float64 {
+			f := cuckoo.NewFilter(uint(capacity))
 			f.Insert([]byte("x"))
 			return 1 / f.LoadFactor()
-		}()
+		}
+		// a filter has the size that was configured when it was created
+		curCap := p.N["dropped"]
+		slotsOf := map[int]float64{0: slotsFor(curCap)}
 		curGen, nextGenExists, gaugesSeen := 0, false, 0
 		routed := map[int]int{} // generation -> records routed into that filter
 		follow := func() {
@@ -198,11 +206,13 @@ func runCache(t *testing.T, p *Plan) *Outcome {
 				if !nextGenExists && l > 0.5 {
 					nextGenExists = true
 					routed[curGen+1] = 0
+					slotsOf[curGen+1] = slotsFor(curCap)
 				}
 				if l > 0.99 {
 					curGen++
 					nextGenExists = true
 					routed[curGen+1] = 0
+					slotsOf[curGen+1] = slotsFor(curCap)
 				}
 			}
 		}
@@ -230,6 +240,7 @@ func runCache(t *testing.T, p *Plan) *Outcome {
 				// slots used no bucket pair can be full (provable). Larger ones: at 65%
 				// no failure in 300000 trials of the same library at 75% (a 64-slot
 				// filter at 75% fails 3 times in 100000, hence the distinction).
+				slots := slotsOf[curGen]
 				if slots < 128 {
 					return float64(routed[curGen]) <= slots/4, rotated
 				}
@@ -269,7 +280,7 @@ func runCache(t *testing.T, p *Plan) *Outcome {
 						out.Probe("dropped_and_kept")
 					}
 					if !found || rec.Kept() {
-						out.Violate("C31", "dropped_decision_not_answered_dropped", site+"."+where, "op#%d %s(trace#%d) at t=%v: recorded dropped at t=%v into filter generation %d (next generation existed: %v); the current filter is generation %d and has received %d records (%d slots), the add queue never overflowed; answered found=%v kept=%v", op.ID, where, op.I, time.Now().Sub(start), d.at.Sub(start), d.gen, d.twoGen, curGen, routed[curGen], int(slots), found, found && rec.Kept())
+						out.Violate("C31", "dropped_decision_not_answered_dropped", site+"."+where, "op#%d %s(trace#%d) at t=%v: recorded dropped at t=%v into filter generation %d (next generation existed: %v); the current filter is generation %d and has received %d records (%d slots), the add queue never overflowed; answered found=%v kept=%v", op.ID, where, op.I, time.Now().Sub(start), d.at.Sub(start), d.gen, d.twoGen, curGen, routed[curGen], int(slotsOf[curGen]), found, found && rec.Kept())
 					}
 					return
 				}
@@ -342,6 +353,15 @@ func runCache(t *testing.T, p *Plan) *Outcome {
 			case "resize":
 				nc := cfg
 				nc.KeptSize = uint(op.N)
+				if op.M > 0 {
+					// the size of the drop filters created from now on
+					follow()
+					nc.DroppedSize = uint(op.M)
+					if op.M != curCap {
+						out.Probe("resize_changes_dropped_size")
+					}
+					curCap = op.M
+				}
 				if err := c.Resize(nc); err != nil {
 					out.Harness = err.Error()
 					return
